@@ -11,6 +11,15 @@ CLAIMED = {
  'C05': dict(
    text="Kernel-checked theorems (CnlProperties/C05.lean) for all digit counts, signedness mixes and narrowest widths: + - * / % on elastic_integer return the exact result within the policy's digits and never execute UB whenever the result type exists; unary minus, shifts by a constant and all six comparisons likewise (comparisons are by value across signedness). The >> clause of the property is refuted from a concrete witness (open known finding) and proved under the complementary hypothesis. Model tied to /repo by exhaustive small-digit and boundary-lattice correspondence over a seed-varied instantiation grid incl. 128-bit storage.",
    note="Trusted: Lean kernel; hand-written model of policy.h / set_digits / operand casts / result-type rule validated by correspondence; narrowest types are built-in integers (wide_integer storage is covered by C10/C11)."),
+ 'C08': dict(
+   text="Kernel-checked theorems (CnlProperties/C08.lean) for every width, signed and unsigned, mixed operand types and all four rounding tags: whenever the usual arithmetic conversions preserve the operand values, b != 0 and the correctly rounded quotient is representable, the modelled division returns exactly roundDiv(mode, a, b) and no intermediate is undefined; roundDiv is characterised without division (IsRounded) and shown unique; every other operator under a rounding tag is the representation's operator. The model follows the repaired nearest / tie_to_pos_inf formulas (fix commits) and is tied to /repo by all 8-bit operand pairs plus boundary/tie lattices for 16/32/64-bit reps.",
+   note="Trusted: Lean kernel; hand-written model of the four divide_op specialisations validated by correspondence (2.2M cases per run); CnlModel.CInt. Mixed-signedness operands whose value changes under the usual arithmetic conversions are constrained only for the native tag (built-in behaviour)."),
+ 'C16': dict(
+   text="Kernel-checked theorems (CnlProperties/C16.lean) for any component width and signedness under explicit fit guards (non-zero denominators; every operand, product and sum representable in the type C++ computes it in): + - * / and unary -/+ denote the exact rational results with the deduced result types; all six comparisons return the order of the rational values for denominators of either sign (the unrepaired order operators are refuted from a witness; the code was repaired by a fix commit); reduce/canonical preserve the value, give coprime parts (canonical: positive denominator), canonical forms of equal values are identical, hence equal hashes for every hash function. Tied to /repo by exhaustive int8 single-fraction sweeps, strided int8 pairs, equal-valued pairs and lattices for wider and mixed component types.",
+   note="Trusted: Lean kernel; hand-written model incl. a libstdc++ std::gcd transcription; IEEE rounding of the conversion to floating point and most-negative components (outside the guards) are tied by the harness only."),
+ 'C19': dict(
+   text="Kernel-checked theorems (CnlProperties/C19.lean): for built-in integers of any width, elastic_integer of any digit count, wide_integer storage and scaled_integer of any even exponent and radix over these, cnl::sqrt evaluates without undefined behaviour (no overflow of root+bit in decltype(root+bit)), terminates (fuel-based model, running out of fuel is a distinct result proved unreachable), and returns the unique r with r*r <= x < (r+1)*(r+1); elastic results fit (D+1)/2 digits; scaled results satisfy the inequality between the denoted rationals. Tied to /repo by exhaustive 8/16-bit and lattice/random correspondence; thorough adds an in-harness sweep of all 32-bit inputs (supplementary search).",
+   note="Trusted: Lean kernel; hand-written model; CnlModel.CInt; wide_integer arithmetic taken as two's complement on its storage (C10)."),
 }
 man = {
  "version": 1,
